@@ -94,12 +94,13 @@ CLAIMS = {
         "ref": "DESIGN.md §4 C06",
     },
     "C07": {
-        "technique": "Lean 4 theorems on the aggregate model (decimal render/parse round trip; COUNT/SUM/MIN/AVG specifications in ℚ) + CLI correspondence + Python Fraction oracle",
+        "technique": "Lean 4 theorems on the aggregate model (decimal render/parse round trip; COUNT/SUM/MIN/AVG and variance specifications in ℚ) + CLI correspondence + Python Fraction oracle",
         "text": ("Theorems for every list of naturals rendered in decimal under the aggregated column (any length, machine range): "
                  "parse∘show = id on naturals, COUNT = number of rows, SUM = Σ, MIN is an attained lower bound, AVG = Σ/n in ℚ (not "
                  "truncated; D14 fixed), empty-result values; for a column that is empty for some entries (line_count of a directory): SUM skips "
-                 "them and AVG = SUM / number of entries (sum_spec_partial, avg_spec_partial). The variances/standard deviations are modelled in ℚ and compared "
-                 "numerically (relative tolerance 1e-9) with the binary and with a Python Fraction/math oracle; their f64 rounding, "
+                 "them and AVG = SUM / number of entries (sum_spec_partial, avg_spec_partial). VAR_POP / VAR_SAMP: the model's value is exactly the textbook "
+                 "two-pass formula Σ(μ − x)²/n in ℚ with μ = Σx/count, n = count resp. count − 1 (variance_spec, variance_divisors). The f64 computation is compared "
+                 "numerically (relative tolerance 1e-9) with the model and with a Python Fraction/math oracle; f64 rounding, square roots, "
                  "'WHERE before aggregation' and 'aggregate of a scalar expression' are decided by correspondence/oracle, not by proof."),
         "ref": "DESIGN.md §4 C07",
     },
